@@ -823,6 +823,12 @@ func (h *harness) searchStream() {
 	p, err := newPool()
 	if err != nil {
 		h.r.Notes["search_error"] = err.Error()
+		if strings.Contains(err.Error(), "did not start: ") && !strings.HasSuffix(err.Error(), "did not start: -") {
+			// The worker came up and died with a fatal error before it served a
+			// layer: that is while it ran the scanners on its warm-up layer.
+			h.fail("", "crash scanner=(any; the worker died while running every scanner on its warm-up layer) recipe=warm-up layer="+h.dumpWitness("layer", warmupLayer())+" msg="+oneLine(err.Error(), 300))
+			return
+		}
 		h.fail("", "search-half-could-not-start "+oneLine(err.Error(), 300))
 		return
 	}
